@@ -56,7 +56,7 @@ ids('C09 C10', {601: 'ExactSizeIterator::len() wrong', 602: 'size_hint() wrong',
 ids('C09 C10', {621: 'nth() differs from stepping', 622: 'last() differs from stepping', 623: 'count() differs from stepping', 624: 'fold()/for_each() differ from stepping', 625: 'iterator state after a provided method differs from stepping'})
 ids('C10', {302: 'an element handed out by a consuming iterator was leaked or destroyed twice', 901: 'double drop of an element a consuming iterator handed out'})
 ids('C10', {612: 'container not empty after drain', 613: 'container not reusable after drain'})
-ids('C10', {301: 'an element a consuming iterator handed out was destroyed again (panicking closure in for_each/fold)', 731: 'container not usable after an interrupted drain',
+ids('C10', {301: 'an element a consuming iterator or drain handed out (or left behind) was destroyed again', 731: 'container not usable after an interrupted drain',
             211: '', 212: '', 213: '', 214: '', 215: '', 904: ''})
 ids('C02 C10', {614: 'elements not released exactly once when a consuming iterator is dropped / excess release when forgotten'})
 ids('C07', {1502: 'clone / subset relations of a set with itself', 601: 'iterator len', 604: 'iteration count', 811: 'contents differ from the model', 206: 'capacity'})
@@ -83,6 +83,9 @@ ids('C05', {733: 'container-raised panic expected/unexpected', 201: '', 202: '',
 ids('C11', {1101: 'entry kind (Occupied/Vacant) does not match presence', 1102: 'reference returned by or_insert* is not the value place of the key',
             1103: 'closure / Default call count', 1106: 'OccupiedEntry get/get_mut/insert/into_mut', 1107: 'OccupiedEntry remove/remove_entry', 1108: 'VacantEntry::insert',
             100: '', 201: '', 202: '', 203: '', 204: '', 205: '', 206: '', 207: ''})
+ids('C11', {208: 'entry API: the stored key/value object is not the one the direct operation would keep', 302: 'entry API: an element was leaked or destroyed twice',
+            901: 'entry API: an element still stored was destroyed', 903: '', 904: 'entry API: a destroyed element is still stored', 905: ''})
+ids('C15', {901: 'clone: an element was destroyed twice (the copies share an element)', 903: '', 905: ''})
 ids('C11 C12 C02', {1104: 'entry API: fate of the supplied key/value objects', 1105: 'entry API: key()/into_key() identity'})
 ids('C13', {1301: 'get_disjoint_mut position differs from get_mut', 1302: 'two returned mutable references alias', 1303: 'returned reference outside the map',
              1304: 'write through a returned reference not observed', 1305: 'equal and present keys did not panic', 1306: 'pairwise different keys panicked', 811: 'map changed', 201: ''})
@@ -93,6 +96,7 @@ ids('C16', {1601: 'bulk construction differs from one-by-one insertion', 1602: '
             201: '', 202: '', 203: '', 204: '', 205: '', 206: '', 207: '', 208: '', 708: ''})
 ids('C18', {1801: 'insert_unchecked differs from insert', 1802: 'get_disjoint_unchecked_mut differs from get_disjoint_mut', 1302: '', 1303: '', 811: '',
             201: '', 202: '', 203: '', 204: '', 205: '', 206: '', 207: '', 208: '', 211: '', 212: '', 213: '', 214: '', 215: '', 302: '', 901: '', 903: '', 904: '', 905: ''})
+ids('C18', {301: 'insert_unchecked: an element was destroyed twice (panicking destructor of the redundant key)', 731: '', 732: ''})
 ids('C17', {301: 'more destructions than creations under inconsistent Eq'})
 ids('C17', {1701: 'len() > capacity() under inconsistent Eq', 1702: 'iteration count != len() under inconsistent Eq', 1703: 'aliasing mutable references',
              1704: 'memory outside the container (canary) overwritten', 1705: 'unexpected panic', 302: 'an element was leaked or destroyed twice', 901: 'double drop',
@@ -157,6 +161,7 @@ fam('c08_provided', 'g_alg', [(2, 2, k) for k in _light] + [(1, 1, k) for k in _
 fam('c08_sub', 'g_alg', Q8[:6], D8)
 fam('c08_difference_ref', 'g_alg', [(1, 1), (2, 2), (3, 2), (2, 3)], [(3, 3), (4, 2)], unwind=lambda c: 9)
 fam('c14_map c14_set', 'g_alg', Q8 + [(2, 3)], [(4, 4), (4, 1), (1, 4), (5, 5)])
+fam('c14_partial', 'g_alg', [1, 2, 3], [4])
 
 C03F = 'c03_insert c03_insert_kv c03_or_insert c03_or_insert_with c03_or_insert_with_key c03_vacant_insert c03_or_default c03_from_iter c03_set_insert c03_set_extend c03_checked_full c03_from_array'
 fam(C03F, 'g_full', [0, 1, 2, 3], [4, 5], profiles=('rel', 'dbg'))
@@ -186,6 +191,9 @@ fam('c11_variants c11_key_and_modify', 'g_entry', [0, 1, 2, 3], [4, 5], dprofile
 fam('c13_disjoint', 'g_misc', [(0, 0), (2, 0), (0, 2), (1, 1), (2, 1), (1, 2), (2, 2), (3, 2), (2, 3), (3, 3)], [(4, 3), (3, 4), (4, 4), (5, 2)], profiles=('rel', 'dbg'))
 fam('c13_disjoint_tok', 'g_misc', [1, 2, 3], [4, 5])
 fam('c15_clone c15_set_clone', 'g_misc', [0, 1, 2, 3], [4, 5], dprofiles=('rel', 'dbg'))
+fam('c15_zst', 'g_misc', [1, 2, 3], [])   # zero-sized, never-equal keys
+fam('c01_zst', 'g_map', [1, 2], [], unwind=lambda c: 5)
+fam('c07_zst', 'g_set', [1, 2], [], unwind=lambda c: 5)
 # N=4: the smallest array with two repeated keys whose later occurrences can be reordered before the first ones
 fam('c16_from_array c16_set_from_array', 'g_misc', [0, 1, 2, 3, 4], [5], dprofiles=('rel', 'dbg'))
 fam('c15_clone_nodrop', 'g_misc', [1, 2, 3], [4, 5], dprofiles=('rel', 'dbg'))
@@ -240,24 +248,24 @@ PROPS = {
                 gate='nostd_build'),
     'C17': dict(fams='c17_insert c17_remove c17_lookup c17_disjoint c17_set c17_collect c17_two c17_build'),
     'C13': dict(fams='c13_disjoint c13_disjoint_tok'),
-    'C15': dict(fams='c15_clone c15_set_clone c15_clone_nodrop c15_clone_from'),
+    'C15': dict(fams='c15_clone c15_set_clone c15_clone_nodrop c15_clone_from c15_zst c01_zst c07_zst'),
     'C16': dict(fams='c16_from_iter c16_from_array c16_set_from c16_set_from_array c07_extend c07_extend_ref'),
-    'C18': dict(fams='c18_insert_unchecked c18_disjoint_unchecked'),
+    'C18': dict(fams='c18_insert_unchecked c18_disjoint_unchecked c04_insert'),
     'C11': dict(fams='c11_or c11_variants c11_key_and_modify '
                      'c03_or_insert c03_or_insert_with c03_or_insert_with_key c03_vacant_insert c03_or_default'),   # full map: entry insertion must panic exactly like insert
     'C04': dict(fams=C04F1 + ' c04_clone_from c04_lookup c04_entry c04_disjoint c04_internal c04_set_internal c04_from_array c04_from_iter c04_set_extend c04_set_algebra'),
     'C05': dict(fams='c05_panics c01_insert c01_insert_kv c01_checked_insert c01_remove c01_remove_entry c01_retain c01_clear c01_drain_all c01_lookup c01_index '
                      'c07_insert c07_replace c07_remove c07_take c07_retain c10_drain '
                      'c03_insert c03_insert_kv c03_or_insert c03_or_insert_with c03_or_insert_with_key c03_vacant_insert c03_or_default c03_set_insert c03_from_iter c03_set_extend '
-                     'c18_insert_unchecked c11_or c11_variants c15_clone c16_from_iter c01_hist'),   # every state-changing path ends in well_formed()/observe()
+                     'c18_insert_unchecked c11_or c11_variants c15_clone c16_from_iter c01_hist c01_zst c07_zst'),   # every state-changing path ends in well_formed()/observe()
     'C03': dict(fams=C03F + ' c03_replace_full c03_shapes'),
     'C08': dict(fams='c08_union c08_intersection c08_difference c08_symdiff c08_union_fold c08_intersection_fold c08_difference_fold c08_symdiff_fold c08_provided c08_sub c08_difference_ref c08_predicates'),
-    'C14': dict(fams='c14_map c14_set'),
-    'C07': dict(fams='c07u_ops c07_insert c07_replace c07_lookup c07_remove c07_take c07_retain c07_clear c07_drain c07_extend c07_extend_ref'),
+    'C14': dict(fams='c14_map c14_set c14_partial'),
+    'C07': dict(fams='c07_zst c07u_ops c07_insert c07_replace c07_lookup c07_remove c07_take c07_retain c07_clear c07_drain c07_extend c07_extend_ref'),
     'C09': dict(fams='c09_iter c09_keys c09_values c09_iter_mut c09_values_mut c09_set_iter c09_defaults c09_provided c09_set_provided c09_zst'),
     'C10': dict(fams='c10_into_iter c10_into_keys c10_into_values c10_set_into_iter c10_drain c10_set_drain c10_provided c10_set_provided c10_drain_methods c10_set_drain_methods '
                      'c10_zst c04_internal c04_set_internal'),   # "each once" also when the closure driving for_each/fold panics
-    'C01': dict(fams='c01_insert c01_insert_kv c01_checked_insert c01_lookup c01_index c01_remove c01_remove_entry c01_retain c01_clear c01_drain_all c01_hist c01u_ops '
+    'C01': dict(fams='c01_insert c01_insert_kv c01_checked_insert c01_lookup c01_index c01_remove c01_remove_entry c01_retain c01_clear c01_drain_all c10_drain c01_hist c01u_ops c01_zst '
                      'c03_insert c03_insert_kv c03_checked_full c03_replace_full'),   # a rejected insertion leaves exactly the previous associations
 }
 
